@@ -135,6 +135,9 @@ fn alphabet(name: &str) -> Vec<Op> {
         "s2" => vec![Q(0), Pr(0), Pd(0), Sr(0), Sr(1), As(0), As(1), Ad(0), Sd(0), Sc(0), Rx(0)],
         // channel reuse: send-and-drop cycles around a queued response
         "reuse" => vec![Q(0), Qd(0), Pr(0), Pd(0), Sr(0), As(0), As(1), Ad(0), Rx(0), Ph(0)],
+        // disconnect hint around a stale ActiveRequest: used behind a prologue that keeps ActiveRequest(A) alive
+        // across a full channel-id cycle so that request B owns A's channel
+        "hint" => vec![Ph(0), Ad(0), Ad(1), Pd(0), As(0), As(1), Pr(0), Q(0), Sr(0), Rx(0)],
         // everything (random histories)
         "full" => vec![Cc(0), Cc(1), Cd(0), Cd(1), Sc(0), Sc(1), Sd(0), Sd(1), L(0), L(1), S, Lx, Q(0), Q(1), Qd(0), Qd(1),
                        Pr(0), Pr(1), Pr(2), Pd(0), Pd(1), Pd(2), Ph(0), Rx(0), Rx(1), Sr(0), Sr(1), Sh(0), Sh(1),
@@ -437,6 +440,20 @@ fn histories<F: FnMut(&[Op]) -> bool>(mode: &str, rest: &[String], mut f: F) {
                         if rng.below(2) == 0 { ops.push(Op::As(0)); }
                         ops.push(Op::Pr(rng.below(2) as usize));
                         ops.push(Op::Pr(rng.below(2) as usize));
+                    } else if r < 30 {
+                        // a stale ActiveRequest kept alive across a full cycle of the channel-id pool; the request that
+                        // inherits its channel sets the disconnect hint; only then the stale ActiveRequest is dropped
+                        let c = rng.below(2) as usize;
+                        let c = if has(&Op::Q(c)) { c } else { 0 };
+                        let j = rng.below(2) as usize;
+                        let j = if has(&Op::Sr(j)) { j } else { 0 };
+                        ops.push(Op::Q(c)); ops.push(Op::Sr(j)); ops.push(Op::Pd(0));
+                        for _ in 0..(2 + rng.below(8)) { ops.push(if has(&Op::Qd(c)) { Op::Qd(c) } else { Op::Q(c) }); }
+                        ops.push(Op::Q(c)); ops.push(Op::Sr(j));
+                        ops.push(Op::Ph(rng.below(2) as usize));
+                        if rng.below(2) == 0 { ops.push(Op::As(rng.below(2) as usize)); }
+                        ops.push(Op::Ad(0));
+                        ops.push(Op::Pr(0));
                     } else {
                         ops.push(alpha[rng.below(alpha.len() as u64) as usize]);
                     }
